@@ -130,7 +130,8 @@ def check(ctx):
         "property-taking methods of Span/LocalSpan no invocation of the closure parameter is reachable without crossing "
         "a recording check (Option<SpanInner|LocalSpanInner|&mut SpanLine> = Some, SpanLine.is_sampled = true, matched "
         "on value origins so helper predicates count); R4 Span::root returns noop before a reporter is ready, "
-        "enter_with_parent on a no-op parent, and every Span::new call receives a token that cannot be empty.")
+        "enter_with_parent on a no-op parent, every Span::new call receives a token that cannot be empty, REPORTER_READY is "
+        "stored true only after GlobalCollector::start and read un-negated.")
     ctx.not_decided = "thread count at run time; 'nothing is delivered' for all call sequences beyond reachability."
     # ------------------------------------------------------------------ config D
     D = ctx.facts("D")
